@@ -145,11 +145,19 @@ def facts_of(b, o, prog_eff=None):
                     oks = [a for a in alts if deep_strip(a[1])[0] == 'agg' and deep_strip(a[1])[2] in ('Ok', 'Some')]
                     if len(oks) == 1 and all(deep_strip(a[1])[0] == 'agg' for a in alts):
                         extra = tuple(extra) + tuple(oks[0][2])
+    from .mir import _signed_to_unsigned, _discr_twins
     for r in extra:
         if r[0] == 'bool':
             out.extend(rels_of_bool(r[1], r[2]))
         else:
             out.append(r)
+            if r[0] == 'discr' and r[2] in (0, 1):
+                # the same consequences a branch on this discriminant would have: a signed -> unsigned conversion fails exactly for
+                # negative values; `y?` / ok_or / ok twins
+                sg = _signed_to_unsigned(deep_strip(r[1]))
+                if sg is not None:
+                    out.append(('cmp', 'Ge' if r[2] == 0 else 'Lt', sg, ('const', 0)))
+                out.extend(_discr_twins(deep_strip(r[1]), r[2]))
     return out
 
 
